@@ -372,10 +372,16 @@ def replay(pid, path):
             return 1
         print("replay of %s: property %s holds on the current tree" % (path, pid))
         return 0
-    if eng in ("kgraph", "kvalue", "khist", "kconf"):
+    if eng in ("kgraph", "kvalue", "khist", "kconf", "kconc"):
         from .main import Result
         res = Result()
-        if eng == "kconf":
+        if eng == "kconc":
+            from . import engine_kconc
+            for _ in range(3):  # the interleaving of the calls with each other is not replayable exactly: three attempts
+                engine_kconc.run(pid, "quick", data.get("seed", 0), res, only=[rp["plan"]])
+                if any(h["prop"] == pid for h in res.hits):
+                    break
+        elif eng == "kconf":
             engine_kconf.run(pid, "quick", data.get("seed", 0), res, only=[rp["case"]])
         elif eng == "kgraph":
             engine_kgraph.run(pid, "quick", data.get("seed", 0), res, only=[rp["case"]])
@@ -465,6 +471,15 @@ REGISTRY["C16"] = dict(engines=[engine_kthread.run_threads], rule=("K-thread cas
 REGISTRY["C17"] = dict(engines=[engine_kthread.run_async, engine_ksched], rule=("K-async: every generated describing function built in both flavours: value, executed node multiset; gathered concurrent awaits with distinct arguments vs the plain reference; "
                        "event-loop liveness: an async-thread node that completes only after a sibling coroutine of the same loop has run || " + SCHED_RULE),
                        assumptions=["the event loop itself (asyncio) is not modelled; liveness is monitored"])
+
+from . import engine_kconc  # noqa: E402
+
+CONC_RULE = ("K-conc: 2-3 executions of ONE DAG object at the same time, each in its own thread (AsyncDAG: its own loop) under its own controller and completion order "
+             "(setup nodes run beforehand; in some cases only one of the calls is given failing nodes): every call's label sequence must be accepted by Sched.check against the declared "
+             "configuration and end where the implementation ended (Concurrent.v: the projection of any interleaving onto one call is a single-call run), monitors per call")
+for _p in ("C16", "C17"):
+    REGISTRY[_p]["engines"] = list(REGISTRY[_p]["engines"]) + [engine_kconc.run]
+    REGISTRY[_p]["rule"] += " || " + CONC_RULE
 
 from . import engine_kconf  # noqa: E402
 
